@@ -84,10 +84,12 @@ func probeStatus(in *Inst, op *Op, t reflect.Type, code int) (int, string) {
 		f.SetInt(int64(code))
 	}
 	FillReaders(v)
+	saved := in.Respond
 	in.Respond = func(c *Call) reflect.Value { return v }
 	req := httptest.NewRequest(op.Method, "http://h.example"+in.P.BasePath+concretePath(op.Template), nil)
 	in.Reset()
 	rec, pan := in.Serve(req)
+	in.Respond = saved
 	if pan != "" {
 		return 0, pan
 	}
